@@ -347,6 +347,21 @@ func corpus() []corpusEntry {
 			return sc
 		})
 	}
+	// handler requests whose URL is a near miss of a stored id (trailing slash,
+	// query, doubled slash, other case): the value is missing, whatever the
+	// Database says for the neighbouring id
+	for _, nilMissing := range []bool{false, true} {
+		nilMissing := nilMissing
+		add(fmt.Sprintf("get.handler.near-miss-urls.nil=%v", nilMissing), func(g *prng.R) *sim.Scenario {
+			sc := baseScenario()
+			ownedNote(sc, 1, nil)
+			sc.Store[L+"/notes/7/"] = withCtx(note(L+"/notes/7/", nil))
+			sc.Cfg.GetNilForMissing = nilMissing
+			sc.Requests = []sim.Request{sim.GetReq("Handler", L+"/notes/1/"), sim.GetReq("Handler", L+"/notes/1?x=1"), sim.GetReq("Handler", L+"//notes/1"),
+				sim.GetReq("Handler", L+"/Notes/1"), sim.GetReq("Handler", L+"/notes/7/"), sim.GetReq("Handler", L+"/notes/7"), sim.GetReq("Handler", L+"/")}
+			return sc
+		})
+	}
 	// Update naming its object only by IRI (the default effect needs the whole object)
 	add("inbox.Update.iri-object", func(g *prng.R) *sim.Scenario {
 		return inboxScenario(M{"type": "Update", "id": R1 + "/act/21", "actor": carol(), "object": A{R1 + "/notes/1"}}, func(sc *sim.Scenario) {
